@@ -31,6 +31,7 @@ def gen_streams(ctx):
     # exhaustive small domain, one job per configuration
     for c in cfgs.split(","):
         jobs.append(("exh", ["exh", 3 if quick else 4, 2, c]))
+    jobs.append(("letters", ["letters"]))
     jobs.append(("sizes", ["sizes", 88 if quick else 600]))
     jobs.append(("long", ["long", 8 if quick else 48]))
     jobs.append(("far", ["far", 24 if quick else 240]))
@@ -179,7 +180,7 @@ def run_matcher_check(ctx, pid, known_filter=None):
         rule="cases = (configuration, representations, haystack, needle); each case runs 6 algorithms x (score-only, indices) x "
              "(fresh, used, poisoned matcher); streams: corpus of past failures, seeded structured random (needles drawn as subsequences/"
              "substrings/trimmed copies of the normalized haystack, then perturbed), exhaustive small domain over an 8-symbol alphabet, "
-             "occurrence-rich haystacks (the needle, near misses of it and separators concatenated), dense cases (haystacks of 6-16 characters over a tiny alphabet of mixed character classes with the needle embedded with gaps 0-2: ties between continuing a run and entering it from a gap), edge-whitespace cases (a core word; the needle carries whitespace at neither, either or both ends, the haystack wraps the core — sometimes re-cased or damaged — in 0-2 whitespace characters per side, ASCII and Unicode whitespace), size-limit shapes (fixed list plus a band around the slab-fit boundary), long needles, matches starting beyond index 2^16 / 2^17; distinct non-trivial = distinct cases with non-empty haystack and needle",
+             "occurrence-rich haystacks (the needle, near misses of it and separators concatenated), dense cases (haystacks of 6-16 characters over a tiny alphabet of mixed character classes with the needle embedded with gaps 0-2: ties between continuing a run and entering it from a gap), edge-whitespace cases (a core word; the needle carries whitespace at neither, either or both ends, the haystack wraps the core — sometimes re-cased or damaged — in 0-2 whitespace characters per side, ASCII and Unicode whitespace), every printable ASCII character as a needle character that only its other-case twin in the haystack can satisfy (`letters`), size-limit shapes (fixed list plus a band around the slab-fit boundary), long needles, matches starting beyond index 2^16 / 2^17; distinct non-trivial = distinct cases with non-empty haystack and needle",
         samples=[l[:300] for l in lines if l.startswith("M ")][:3] + [l for l in lines if l.startswith("X ")][:2],
         model_disagreements=len(diffs), oracle_failures=len(mine))
     ctx.assumptions += ["Rust std char::is_lowercase/is_numeric/is_alphabetic are inputs of the model",
